@@ -246,8 +246,12 @@ func (c *Collector) collect() {
 
 	// generate the new hot keys.
 	res := newSortedHotKeys(c.capacity)
-	for keyName, counter := range curHotKeys {
+	for keyName, cur := range curHotKeys {
 		visits := accessedKeyNames[keyName]
+		// the published list is read without the lock after HotKeys() has
+		// returned it: never change its counters, work on copies.
+		counter := new(logrithmCounter)
+		*counter = *cur
 		counter.ReaptIncr(visits)
 		key := HotKey{Name: keyName, Counter: counter}
 		res.Insert(key)
@@ -271,18 +275,21 @@ func (c *Collector) evictStale() {
 	c.rwmu.Lock()
 	defer c.rwmu.Unlock()
 
-	// halve counter
+	// halve counter, on copies: a reader may still be printing the published list.
 	curTimeInMinute := nowInMinute()
+	halved := make([]HotKey, 0, len(c.keys))
 	for _, key := range c.keys {
-		counter := key.Counter
+		counter := new(logrithmCounter)
+		*counter = *key.Counter
 		if curTimeInMinute > counter.LastUpdateTimeInMinute() {
 			counter.Halve()
 		}
+		halved = append(halved, HotKey{Name: key.Name, Counter: counter})
 	}
 
 	// remove stale
-	keys := make([]HotKey, 0, len(c.keys))
-	for _, key := range c.keys {
+	keys := make([]HotKey, 0, len(halved))
+	for _, key := range halved {
 		if key.Counter.Value() != 0 {
 			keys = append(keys, key)
 		}
